@@ -16,7 +16,7 @@ Theorem readonly_no_race : forall (ths : list (list event)) (tr : trace),
 Proof. exact Proofs.readonly_no_race. Qed.
 
 (* 2. The modelled event list of a Program run (any sequence of modelled VM steps other than the
-      template-cell redefinition of finding F20) contains no write to Program-owned memory and respects
+      template-cell redefinition of finding C16-N1) contains no write to Program-owned memory and respects
       ownership. *)
 Theorem program_run_readonly : forall r p ops, forallb vop_ok ops = true ->
   forall e, In e (events_of_run r p ops) -> writes_prog p e = false /\ respects r e.
@@ -42,7 +42,7 @@ Theorem imported_race_refuted : forall s, exists tr,
   interleaving [ev_length s false; ev_length s false] tr /\ consistent tr /\ lock_wf tr /\ race tr.
 Proof. exact Proofs.imported_race_refuted. Qed.
 
-(* 5. Finding F20: the permitted no-op redefinition of a tagged-template cell writes Program-owned memory;
+(* 5. Finding C16-N1: the permitted no-op redefinition of a tagged-template cell writes Program-owned memory;
       two runtimes doing it race (even when scheduled one after the other: nothing orders them). *)
 Theorem tmpl_redefine_race_refuted : forall p site raw i, exists tr,
   interleaving [events_of_run 0 p [OTmplRedefine site raw i]; events_of_run 1 p [OTmplRedefine site raw i]] tr /\
